@@ -350,6 +350,10 @@ func (bucket *Bucket) expireDocuments() (int64, error) {
 	var count int64
 	for _, name := range names {
 		if coll, err := bucket.getCollection(name.(sgbucket.DataStoreNameImpl)); err != nil {
+			var missing sgbucket.MissingError
+			if errors.As(err, &missing) {
+				continue // the collection was dropped after we listed it: nothing left to expire there
+			}
 			return 0, err
 		} else if n, err := coll.expireDocuments(); err != nil {
 			return 0, err
